@@ -99,6 +99,11 @@ def cases(tier, seed):
                 for cut in (1, 6, len(items[i][1]) - 1):
                     if 0 < cut < len(items[i][1]):
                         yield {'conv': name, 'fault': 'silence-after-partial-pdu', 'at': i, 'cut': cut}
+                # ... where what has arrived is exactly what one read asks for (or twice that): a full read says nothing about more
+                # being on its way
+                for mpl, cut in ((64, 64), (32, 64), (7, 7)):
+                    if cut < len(items[i][1]):
+                        yield {'conv': name, 'fault': 'silence-after-partial-pdu', 'at': i, 'cut': cut, 'mpl': mpl}
             yield {'conv': name, 'fault': 'chatter', 'at': i}
 
 
@@ -190,7 +195,7 @@ def run_case(case):
             dry = e2.Env(role, hist[:-1], budget=3000).run()
             dev = {dry.nonquiescent_heads + case['dev'] - 1 if hist[:-1] else case['dev']: True}
     guard = (lambda pos: hist[pos][0] in ('close', 'kill')) if dev else None
-    env = e2.Env(role, hist, deviations=dev, dev_guard=guard, budget=3000).run()
+    env = e2.Env(role, hist, deviations=dev, dev_guard=guard, budget=3000, **({'max_pdu_length': case['mpl']} if case.get('mpl') else {})).run()
     fin = env.final
     viol = []
     if fault == 'local-error':
